@@ -65,6 +65,13 @@ def to_actions(script, log):
         nonlocal now
         if ts > now:
             acts.append("tick*%d" % (ts - now)); now = ts
+    early = {}
+    def fire(idx, ts):
+        nonlocal cur
+        advance(max(ts, min(entries[idx]["due"], ts + G)))
+        cur = idx
+        entries[idx]["fired"] = ts
+        acts.append("fire:%d" % idx)
     for tok in log:
         m = re.match(r"(\d+):([a-z-]+):(.*)$", tok)
         if not m: continue
@@ -78,6 +85,7 @@ def to_actions(script, log):
             idx = len(entries); entries.append(dict(key=key, due=called + delay, enq=called, delay=delay, due_hi=ts + delay, enq_hi=ts))
             armed[key] = idx
             acts.append("enqueue:%d:%d" % (k, called + delay))
+            if key in early: fire(idx, max(ts, early.pop(key)))
         elif what in ("detach", "detach-none"):
             advance(ts)
             acts.append("detach:%d" % k)
@@ -92,11 +100,12 @@ def to_actions(script, log):
         elif what == "fire":
             idx = armed.get(key)
             if idx is None and detached.get(key): idx = detached[key][0]      # detached but its timer not yet deleted
-            if idx is None: problems.append("timer fired for %s which has no armed entry" % key); continue
-            advance(max(ts, min(entries[idx]["due"], ts + G)))
-            cur = idx
-            entries[idx]["fired"] = ts
-            acts.append("fire:%d" % idx)
+            if idx is None:
+                # the callback logs `fire` before it takes the queue's mutex, enqueueDelayed logs `enqueued` while it
+                # still holds it: a timer that expires in between is seen firing before it is seen enqueued. The callback
+                # has done nothing yet: its start is moved behind the `enqueued` line that follows
+                early[key] = ts; continue
+            fire(idx, ts)
         elif what in ("check-own", "check-cancelled"):
             advance(ts)
             acts.append("check")
@@ -110,6 +119,7 @@ def to_actions(script, log):
         elif what == "freed":
             advance(ts)
             acts.append("free"); cur = None
+    for key in early: problems.append("timer fired for %s which has no armed entry" % key)
     return acts, entries, ready, problems
 
 
@@ -181,58 +191,96 @@ def suite_schedules(ctx, n):
 
 
 def delay_doc(rng):
+    """<send delay> elements with sendids drawn from a pool (several pending sends may share one), immediate cancels and
+    cancels triggered by the arrival of an earlier event; every element carries a uvid so that the harness' timestamps
+    tell when it ran"""
     n = rng.randint(2, 6)
     slots = rng.sample(range(1, 9), n)                  # distinct multiples of 40 ms
     sends = [(i, 40 * s) for i, s in enumerate(slots)]
-    # a sendid is not unique: several pending sends may share one, a cancel removes all of them
     nid = rng.choice([n, n, max(1, n - 1), max(1, n // 2)])
     sid = dict((i, rng.randrange(nid)) for i, _ in sends)
-    now_cancel = set(sid[i] for i, _ in sends if rng.random() < 0.15)
-    order = sorted((d, i) for i, d in sends if sid[i] not in now_cancel)
-    later = {}                                          # on receiving d_k cancel the sends with id g that are still pending
-    dead = set()
+    now_cancel = sorted(set(sid[i] for i, _ in sends if rng.random() < 0.15))
+    order = sorted((d, i) for i, d in sends)
+    later = {}                                          # on receiving d_i cancel the sends with id g
     for pos, (d, i) in enumerate(order):
-        if i in dead: continue
-        cands = sorted(set(sid[j] for dd, j in order[pos + 1:] if j not in dead))
-        if cands and rng.random() < 0.4:
-            g = rng.choice(cands); later[i] = g
-            dead.update(j for dd, j in order[pos + 1:] if sid[j] == g)
-    body = "".join('<send event="d%d" delay="%dms" id="id%d"/>' % (i, d, sid[i]) for i, d in sends)
-    body += "".join('<cancel sendid="id%d"/>' % g for g in sorted(now_cancel))
-    trans = "".join('<transition event="d%d"><cancel sendid="id%d"/></transition>' % (i, g) for i, g in later.items())
+        cands = sorted(set(sid[j] for dd, j in order[pos + 1:]))
+        if cands and rng.random() < 0.4: later[i] = rng.choice(cands)
+    body = "".join('<send event="d%d" delay="%dms" id="id%d" uvid="%d"/>' % (i, d, sid[i], 100 + i) for i, d in sends)
+    body += "".join('<cancel sendid="id%d" uvid="%d"/>' % (g, 200 + k) for k, g in enumerate(now_cancel))
+    trans = "".join('<transition event="d%d"><cancel sendid="id%d" uvid="%d"/></transition>' % (i, g, 300 + i) for i, g in later.items())
     doc = ('<scxml xmlns="http://www.w3.org/2005/07/scxml" version="1.0" datamodel="null"><state id="s"><onentry>%s</onentry>%s</state></scxml>' % (body, trans))
-    expect = ["d%d" % i for d, i in order if i not in dead]
-    return doc, expect, 40 * max(slots) + 150
+    cancels = dict((200 + k, g) for k, g in enumerate(now_cancel)); cancels.update((300 + i, g) for i, g in later.items())
+    meta = dict(delay=dict((i, d) for i, d in sends), sid=sid, cancels=cancels)
+    return doc, meta, 40 * max(slots) + 150
+
+
+def chart_oracle(toks, meta):
+    """sound whatever the scheduling: every judgement is relative to the times at which the <send> and <cancel> elements were
+    seen to run. A send is armed between the stamps around its element; a cancel has completed at the stamp after its element."""
+    t = 0
+    bc, ac, bpe, order = {}, {}, {}, []
+    pending = None
+    for i, tok in enumerate(toks):
+        if tok.startswith("@"): t = int(tok[1:]); continue
+        if tok.startswith("bc:") and tok[3:].isdigit(): bc.setdefault(int(tok[3:]), []).append(t)
+        elif tok.startswith("ac:") and tok[3:].isdigit():
+            nxt = toks[i + 1] if i + 1 < len(toks) and toks[i + 1].startswith("@") else "@%d" % t
+            ac.setdefault(int(tok[3:]), []).append(int(nxt[1:]))
+        elif tok.startswith("bpe:d") and tok[5:].isdigit():
+            bpe.setdefault(int(tok[5:]), []).append(t); order.append(int(tok[5:]))
+    delay, sid, cancels = meta["delay"], meta["sid"], meta["cancels"]
+    for i in delay:
+        if 100 + i not in bc or 100 + i not in ac: return "the <send> of d%d was not executed" % i
+        if len(bpe.get(i, [])) > 1: return "d%d was processed %d times" % (i, len(bpe[i]))
+        if i in bpe and bpe[i][0] + G < bc[100 + i][0] + delay[i]:
+            return "d%d (delay %d ms, <send> started at %d) was processed early, at %d" % (i, delay[i], bc[100 + i][0], bpe[i][0])
+    # cancels: each execution of a <cancel> of id g, completed at time T
+    runs = [(T, uv) for uv in cancels for T in ac.get(uv, [])]
+    for i in delay:
+        armed_lo, armed_hi = bc[100 + i][0], ac[100 + i][0]
+        hit = [T for T, uv in runs if cancels[uv] == sid[i] and T >= armed_hi]                 # cancels that ran after the send had completed
+        sure = [T for T in hit if T + G < armed_lo + delay[i]]                                  # ... and completed before it could be due
+        if sure and i in bpe: return "d%d (due no earlier than %d) was processed at %d although a <cancel> of its sendid completed at %d" % (i, armed_lo + delay[i], bpe[i][0], min(sure))
+        maybe = [T for T, uv in runs if cancels[uv] == sid[i]]
+        if not maybe and i not in bpe: return "d%d was never processed and never cancelled" % i
+    # due order among the processed ones
+    for a in order:
+        for b in order[order.index(a) + 1:]:
+            # a was processed before b: wrong if b was certainly due well before a could be
+            if ac[100 + b][0] + delay[b] + 2 * G < bc[100 + a][0] + delay[a]:
+                return "d%d (due >= %d) was processed before d%d (due <= %d)" % (a, bc[100 + a][0] + delay[a], b, ac[100 + b][0] + delay[b])
+    return None
 
 
 def suite_charts(ctx, n):
     rng = ctx.rng
-    lines, meta = [], []
+    lines, metas = [], []
     for _ in range(n):
-        doc, expect, total = delay_doc(rng)
+        doc, meta, total = delay_doc(rng)
         for eng in ("large", "fast"):
             # drive with blocking steps so that the interpreter thread sleeps in dequeue while timers fire
-            ops = ",".join(["q"] + ["b:40", "q"] * (total // 40 + 9) + ["w:60", "q"])
-            lines.append("%s\t-\t%s\t%s" % (eng, ops, hexs(doc))); meta.append((doc, expect))
+            ops = ",".join(["T", "q"] + ["b:40", "q"] * (total // 40 + 20) + ["w:60", "q"])
+            lines.append("%s\t-\t%s\t%s" % (eng, ops, hexs(doc))); metas.append((doc, meta))
     parts = list(chunks(lines, max(1, (len(lines) + 7) // 8)))
     def work(part):
         rc, h, err = ctx.harness_lines("api", part, variant="asan", timeout=3600)
         if rc != 0 or len(h) != len(part): raise BrokenTie("harness", "uvharness api rc=%s" % rc)
         return h
     with ThreadPoolExecutor(8) as ex: H = [x for part in ex.map(work, parts) for x in part]
-    st = dict(inputs=len(lines), as_expected=0, events=0, violations=0)
-    for l, h, (doc, expect) in zip(lines, H, meta):
+    st = dict(inputs=len(lines), as_expected=0, events=0, cancelled_in_time=0, violations=0)
+    for l, h, (doc, meta) in zip(lines, H, metas):
         toks = h.split(" ")
-        got = [t[4:] for t in toks if t.startswith("bpe:")]
-        st["events"] += len(got)
+        st["events"] += sum(1 for t in toks if t.startswith("bpe:d"))
         bad = [t for t in toks if t.startswith(("CRASH", "EXIT", "EXC"))]
-        if got == expect and not bad and toks[-1] == "end":
+        why = ("abnormal end %s" % bad) if bad or toks[-1] != "end" else chart_oracle(toks, meta)
+        if why is None:
             st["as_expected"] += 1
+            st["cancelled_in_time"] += sum(1 for i in meta["delay"] if not any(t == "bpe:d%d" % i for t in toks))
             continue
         st["violations"] += 1
         if len(ctx.violations) < 4:
             ctx.violation("chart-%d" % len(ctx.violations), "chart-delays", [l],
-                          detail="expected the delayed events %s to be processed in this order, once each; the interpreter processed %s %s\ndocument: %s" % (expect, got, bad, doc))
+                          detail="%s\ndocument: %s\nlog: %s" % (why, doc, " ".join(t for t in toks if not t.startswith(("cfg:", "ret:")))[:1500]))
     ctx.add_suite("chart-delays", **st)
 
 
@@ -248,7 +296,7 @@ def run(ctx):
     ctx.coverage["distinct_nontrivial"] = s1["races"]
     ctx.coverage["rule"] = ("random scripts of 2-12 enqueue (delays 1-80 ms, 6 keys, re-used keys replace) / cancel / cancelAll / wait operations against the compiled BasicDelayedEventQueue "
                             "with 0-3 schedule hooks sleeping 3-40 ms at the timer thread's and the canceller's protocol points, plus directed races; non-trivial = a cancel met a timer callback "
-                            "that had already started; charts with 2-6 delayed sends at distinct multiples of 40 ms, sendids shared by several pending sends or not, and immediate or event-triggered cancels, both engines")
+                            "that had already started; charts with 2-6 delayed sends at distinct multiples of 40 ms, sendids shared by several pending sends or not, and immediate or event-triggered cancels, both engines, judged against the times at which the <send>/<cancel> elements were seen to run")
     ctx.assumptions += ["libevent fires a timer only when due, once per event_add, one callback at a time; event_del waits for a running callback (trusted base)",
                         "time is compared at millisecond resolution with %d ms granularity granted" % G,
                         "the order of log lines of different threads is the order in which they took the harness' log mutex (inside the queue's locked sections where the protocol needs it)"]
@@ -265,5 +313,5 @@ def replay(ctx, path):
             print("log:", h); print("model actions:", " ".join(acts)); print("model:", ctx.driver_lines("dq", [" ".join(acts)])[0]); print("problems:", problems)
         else:
             rc, h, err = ctx.harness_lines("api", [l], variant="asan")
-            print("I:", h[0][:3000])
+            print("I:", " ".join(t for t in h[0].split(" ") if not t.startswith(("cfg:", "ret:")))[:3000])
     return 0
